@@ -1,0 +1,33 @@
+//go:build verif
+
+package vm_color_indent
+
+// Contracts for the interpreter (comment-only; read by /verif/engine).
+//
+// Run is executed symbolically with its dispatch loop cut at the head (invariant
+// true: nothing is assumed about the opcode program or the buffer), run-time
+// checks off. What is proved is a call-site property of every opcode path: the
+// float emitters are only reached with a finite value (C03).
+
+//@ func Run(ctx, b, codeSet) (res, err)
+//@   props C03
+//@   nosafety
+//@   assigns all
+//@   assumecalls AppendInt AppendUint CompileToGetCodeSet: integer emitter preconditions (operand width, readable operand) are invariants of the compiled opcode program, outside this proof
+//@   loop 1: invariant true
+//@   loop 2: invariant true
+//@   loop 3: invariant true
+//@   loop 4: invariant true
+
+// the colourising wrappers hand the value on unchanged
+//@ func appendFloat32(ctx, b, v) (out)
+//@   props C03
+//@   requires !isNaN(v) && !isInf(v)
+//@   nosafety
+//@   assigns all
+
+//@ func appendFloat64(ctx, b, v) (out)
+//@   props C03
+//@   requires !isNaN(v) && !isInf(v)
+//@   nosafety
+//@   assigns all
